@@ -131,6 +131,12 @@ def check_solver(ck, repo, df, sv):
 
 def check_solver_path(ck, repo, df, sv, o, given):
     fq = sv.qualname
+    wl = [l for l in o.loops if l.kind == "while" and l.func is sv]
+    if wl and wl[0].entered is False:
+        # the loop is skipped only when the start distance is already below the precision, i.e. for a
+        # precision above the start value of the distance (1): outside the property's domain (<= 1e-3)
+        ck.note("path with the fixed-point loop skipped (precision above the initial distance) is outside the domain; not judged")
+        return
     if o.kind != "return":
         ck.ob("D3", fq, "solver returns under an admissible single permeate condition", o.exc.where or sv.loc(), False,
               "raises %s: %s" % (o.exc.exc_type, o.exc.msg))
